@@ -105,13 +105,15 @@ def repo_all_files():
     return sorted(fs)
 
 
-def _prune(prefix, keep):
-    """keep only the newest cache entry for a prefix"""
+def _prune(prefix, keep, spare=2):
+    """keep the entry named `keep` and the `spare` newest other entries for a prefix
+    (a concurrent check may still be linking against the previous one)"""
     if not os.path.isdir(CACHE):
         return
-    for d in os.listdir(CACHE):
-        if d.startswith(prefix) and d != keep:
-            shutil.rmtree(os.path.join(CACHE, d), ignore_errors=True)
+    others = [d for d in os.listdir(CACHE) if d.startswith(prefix) and d != keep and not d.endswith(".lock")]
+    others.sort(key=lambda d: os.path.getmtime(os.path.join(CACHE, d)), reverse=True)
+    for d in others[spare:]:
+        shutil.rmtree(os.path.join(CACHE, d), ignore_errors=True)
 
 
 def build_lib(variant="plain"):
